@@ -209,7 +209,18 @@ func tbTargets(re *ast.RuleEntry, may map[string]bool) {
 	}
 	for _, te := range re.ThenScope.ThenExpressionList.ThenExpressions {
 		if te.Assignment != nil && te.Assignment.Variable != nil {
-			may[strings.ReplaceAll(te.Assignment.Variable.GrlText, " ", "")] = true
+			t := strings.ReplaceAll(te.Assignment.Variable.GrlText, " ", "")
+			may[t] = true
+			// a computed selector (F.Arr[F.In], F.M["" + "a"]) may address any element of its container
+			if i, j := strings.Index(t, "["), strings.Index(t, "]"); i > 0 && j > i {
+				inner := t[i+1 : j]
+				lit := len(inner) > 0 && (inner[0] == '"' && strings.Count(inner, `"`) == 2 && inner[len(inner)-1] == '"' || strings.Trim(inner, "0123456789") == "")
+				if !lit {
+					for _, k := range []string{"[0]", "[1]", "[2]", `["a"]`, `["b"]`} {
+						may[t[:i]+k+t[j+1:]] = true
+					}
+				}
+			}
 		}
 		if te.ExpressionAtom != nil {
 			t := te.ExpressionAtom.GrlText
@@ -314,16 +325,21 @@ func (w *tbWorld) topN() int64 {
 
 // ---------------------------------------------------------------- C13
 
-// tbInvalidates: does firing `re` concern the counted call F.Heavy(F.I) / F.GetI()? (an assignment to F.I or F,
-// a mutating method, or a Forget/Changed call)
-func tbInvalidates(re *ast.RuleEntry) bool {
+// tbInvalidates: does firing `re` concern a counted call? what=0: F.Heavy(F.I) (an assignment to F.I or F, a mutating
+// method, or a Forget/Changed call); what=1: the argument-less calls F.GetI() / F.Items() (only an assignment to F itself or a
+// Forget/Changed call: grule does not look inside methods, and no variable of their text is assigned otherwise)
+func tbInvalidates(re *ast.RuleEntry, what int) bool {
 	may := map[string]bool{}
 	tbTargets(re, may)
-	if may["F.I"] || may["F"] {
+	if may["F"] || (what == 0 && may["F.I"]) {
 		return true
 	}
 	for _, te := range re.ThenScope.ThenExpressionList.ThenExpressions {
 		if te.ExpressionAtom != nil && (strings.Contains(te.ExpressionAtom.GrlText, "Forget(") || strings.Contains(te.ExpressionAtom.GrlText, "Changed(")) {
+			// Changed("F.I") names a variable that does not occur in an argument-less call
+			if what == 1 && !strings.Contains(te.ExpressionAtom.GrlText, "()") && !strings.Contains(te.ExpressionAtom.GrlText, `"F"`) {
+				continue
+			}
 			return true
 		}
 	}
@@ -333,13 +349,13 @@ func tbInvalidates(re *ast.RuleEntry) bool {
 // Template sets (the *programs* dimension is a curated family; see DESIGN §4).
 var tbSets = map[string][]string{
 	"json":    {"j_basic"},
-	"memo":    {"b_basic", "b_toplevel", "b_slice_sel", "b_slice", "b_map", "b_nested", "b_short", "b_shared", "b_forget", "b_ptrswap", "b_forgetcall", "b_chain", "b_failshared", "b_elemfield", "m_multires", "m_partial"},
-	"control": {"b_retract", "b_fail", "b_nilptr", "b_actfail"},
-	"values":  {"b_compound", "b_args", "b_float", "b_string"},
+	"memo":    {"b_basic", "b_toplevel", "b_slice_sel", "b_slice", "b_map", "b_nested", "b_short", "b_shared", "b_forget", "b_ptrswap", "b_forgetcall", "b_chain", "b_failshared", "b_elemfield", "m_multires", "m_partial", "b_elemheavy", "b_substr"},
+	"control": {"b_retract", "b_fail", "b_nilptr", "b_actfail", "b_completefail", "b_parenfail"},
+	"values":  {"b_compound", "b_args", "b_float", "b_string", "b_ifacebool"},
 	"reuse":   {"b_unread", "b_retract", "b_basic", "b_writeonly", "b_complete"},
 	"reuseq":  {"b_unread", "b_basic", "b_writeonly", "b_complete"},
 	"dbg":     {"b_elemfield"},
-	"fetch":   {"b_basic", "b_short", "b_map", "b_slice", "b_nested", "b_shared"},
+	"fetch":   {"b_basic", "b_short", "b_map", "b_slice", "b_nested", "b_shared", "b_ifacebool"},
 	"clone":   {"b_paren", "b_argshare", "b_shared", "b_short", "b_retract", "b_map", "b_slice_sel", "b_forgetcall", "two"},
 }
 
@@ -389,19 +405,22 @@ func VerifTierBRun(tmpl string, maxCycle int, flags int) {
 	verif.Reach("tierB:execute-returned")
 	// C04 frame condition: only what the fired rules address may have changed
 	may := map[string]bool{}
-	invalidations := 0
+	invalidations, invalidations0 := 0, 0
 	for _, n := range w.fired {
 		tbTargets(w.kb.RuleEntries[n], may)
-		if tbInvalidates(w.kb.RuleEntries[n]) {
+		if tbInvalidates(w.kb.RuleEntries[n], 0) {
 			invalidations++
+		}
+		if tbInvalidates(w.kb.RuleEntries[n], 1) {
+			invalidations0++
 		}
 	}
 	w.frame(pre, w.topN(), may)
 	w.frameJSON(preJ, may)
 	// C13: a shared side-effect-free call is evaluated at most once between invalidations
 	verif.Assert(w.L("C13:shared-call-evaluated-at-most-once-between-invalidations"), w.f.HeavyCalls <= 1+invalidations)
-	verif.Assert(w.L("C13:shared-accessor-evaluated-at-most-once-between-invalidations"), w.f.GetICalls <= 1+invalidations)
-	verif.Assert(w.L("C13:shared-call-on-an-element-of-a-method-result-evaluated-at-most-once"), w.f.ItemCalls() <= 1+invalidations)
+	verif.Assert(w.L("C13:shared-accessor-evaluated-at-most-once-between-invalidations"), w.f.GetICalls <= 1+invalidations0)
+	verif.Assert(w.L("C13:shared-call-on-an-element-of-a-method-result-evaluated-at-most-once"), w.f.ItemCalls() <= 1+invalidations0)
 	if w.f.HeavyCalls > 0 {
 		verif.Reach("tierB:counted-call-ran")
 	}
@@ -481,6 +500,32 @@ var tbPost = map[string]func(w *tbWorld, pre factSnap, err error){
 			verif.Assert(w.L("C14:actions-after-the-failing-one-do-not-run"), w.f.U16 == pre.f.U16)
 			verif.Assert(w.L("C14:no-rule-fires-after-a-failed-action"), w.fired[len(w.fired)-1] == "AF1")
 		}
+	},
+	// C14: Complete() followed by a failing action in the same then scope - the failure is still reported
+	"b_completefail": func(w *tbWorld, pre factSnap, err error) {
+		fs := firedSet(w)
+		if fs["CF1"] > 0 {
+			verif.Reach("tierB:complete-then-maybe-failing-action-fired")
+			outOfRange := verif.Or(pre.f.In < 0, pre.f.In > 2)
+			verif.Assert(w.L("C14:action-failure-after-Complete-is-returned"), verif.Iff(outOfRange, err != nil))
+			if err != nil {
+				verif.Assert(w.L("C14:action-error-names-the-rule"), strings.Contains(err.Error(), "CF1"))
+				verif.Assert(w.L("C14:actions-after-the-failing-one-do-not-run"), w.f.U16 == pre.f.U16)
+			} else {
+				verif.Assert(w.L("C10:actions-after-Complete-still-run"), w.f.U16 == 7)
+			}
+			verif.Assert(w.L("C14:effects-of-completed-actions-are-kept"), w.f.U8 == 1)
+			verif.Assert(w.L("C14:no-rule-fires-after-a-failed-action"), w.fired[len(w.fired)-1] == "CF1")
+		}
+	},
+	// C14: a sub-expression that fails is not remembered: the rule fires only while its index is in range
+	"b_parenfail": func(w *tbWorld, pre factSnap, err error) {
+		fs := firedSet(w)
+		if n := fs["PF1"]; n > 0 {
+			verif.Reach("tierB:paren-rule-fired")
+			verif.Assert(w.L("C14:rule-with-a-failing-condition-does-not-fire"), verif.And(pre.f.In >= 0, pre.f.In+n-1 <= 2))
+		}
+		verif.Assert(w.L("C14:condition-failures-are-contained-by-default"), err == nil || strings.Contains(err.Error(), "successfully selected"))
 	},
 	"b_nilptr": func(w *tbWorld, pre factSnap, err error) {
 		verif.Assert(w.L("C14:condition-failures-are-contained-by-default"), err == nil)
